@@ -316,3 +316,24 @@ func funcDeclOf(fn *ssa.Function) *ast.FuncDecl {
 	d, _ := fn.Syntax().(*ast.FuncDecl)
 	return d
 }
+
+// regionFieldStores / regionCallsTo: like fw.FieldStores / fw.CallsTo over fn, its closures
+// and the unexported helpers it calls.
+func regionFieldStores(fn *ssa.Function, structSuffix, field string) []*ssa.Store {
+	var out []*ssa.Store
+	for _, f := range fw.RegionOf(fn, nil) {
+		if f.Parent() != nil {
+			continue // closures are visited with their parent by FieldStores
+		}
+		out = append(out, fw.FieldStores(f, structSuffix, field)...)
+	}
+	return out
+}
+
+func regionCallsTo(fn *ssa.Function, match func(string) bool) []ssa.CallInstruction {
+	var out []ssa.CallInstruction
+	for _, f := range fw.RegionOf(fn, nil) {
+		out = append(out, fw.CallsTo(f, false, match)...)
+	}
+	return out
+}
